@@ -67,7 +67,7 @@ package fiber
 
 // ---- 2. cloning ------------------------------------------------------------------------------------------
 // Route has 13 fields ("always keep in sync with the copy method"): every one is classified here.
-//   copied:      path, Method, Name, Path, Params, Handlers, routeParser (4 fields), pos, use, mount, star, root
+//   copied:      path, Method, Name, Path, Params, Handlers, routeParser (4 fields), customConstraints, pos, use, mount, star, root
 //   not copied:  group - used at registration time only (Name prefix) and to find the sub-app of a mount marker;
 //                a clone has none, which is why a marker must never be cloned (processSubAppsRoutes).
 //@ func (*App).copyRoute pure fresh
@@ -75,6 +75,7 @@ package fiber
 //@   ensures copied-parser: result.routeParser.segs == route.routeParser.segs && result.routeParser.params == route.routeParser.params && result.routeParser.wildCardCount == route.routeParser.wildCardCount && result.routeParser.plusCount == route.routeParser.plusCount
 //@   ensures copied-public-data: result.Method == route.Method && result.Name == route.Name && result.Handlers == route.Handlers
 //@   ensures copied-routing-data: result.pos == route.pos && result.use == route.use && result.mount == route.mount && result.star == route.star && result.root == route.root
+//@   ensures [C04 C02] copied-custom-constraints: result.customConstraints == route.customConstraints
 //@   ensures group-not-copied: result.group == nil
 //@   ensures a-new-route: result != nil && result != route
 
@@ -88,10 +89,11 @@ package fiber
 //   root: the code clears the flag as well; for the key "/" Route.match falls through to comparisons that give
 //     the same answer (bounded stand-in, part E: no disagreement), so only soundness of the shortcut is demanded.
 //@ func (*App).addPrefixToRoute
-//@   props C04 C01
+//@   props C04 C01 C02
 //@   requires route-given: route != nil
 // (frame: the six fields of the clone; the rest is the frame of parseRoute, which builds the parser in place)
-//@   modifies route.Path, route.path, route.Params, fields(route.routeParser), route.root, route.star,
+//@   modifies route.Path, route.path, route.Params, fields(route.routeParser), route.root, route.star, route.customConstraints,
+//@ ..   Constraint.Data, Constraint.RegexCompiler, Constraint.Name,
 //@ ..   routeParser.wildCardCount, routeParser.plusCount, heap(E_string), heap(E_p_fiber_Constraint), heap(E_p_fiber_routeSegment),
 //@ ..   routeSegment.ComparePart, routeSegment.Length, routeSegment.PartCount, routeSegment.HasOptionalSlash, routeSegment.IsLast
 //@   ensures same-route: result == route
@@ -101,11 +103,22 @@ package fiber
 // prefixed path as registered. A clone whose parser was built from the un-normalised path is filed by buildTree under a
 // key that no request's (folded, trimmed) detection path produces and is never reached.
 // (Stated before its parts key-as-registered, star-as-registered ...: an obligation is assumed once asserted.)
-//@   ensures [C01 C04] route-as-registered: routeAsRegistered(app, route)
+// (before the invariant, so that it fails under its own name) the catch-all shortcut is only for a star WRITTEN unescaped
+//@   ensures [C01 C04 C02] escaped-star-is-a-literal: route.star ==> noEscape(prettyPath) && route.path == "/*"
+//@   ensures [C01 C04 C02] route-as-registered: routeAsRegistered(app, route, route.routeParser.segs, parsedRaw.segs)
 //@   ensures path-is-prefix-joined: route.Path == joinedPath(prefix, old(route.Path))
 //@   ensures key-as-registered: keyAsRegistered(app, route)
 //@   ensures root-shortcut-sound: route.root ==> route.path == "/"
-//@   ensures star-as-registered: route.star == (route.path == "/*")
+// (since the escaped-star fix the flag is decided on the normal form as written: `/\*` is the literal path "/*")
+//@   ensures star-as-registered: existsS(P, normalForm(app.config.CaseSensitive, app.config.StrictRouting, route.Path, P) && route.path == unescaped(P) && route.star == (P == "/*"))
+// C02: a clone keeps the custom constraints its route was registered with - they are consulted first - followed by
+// those of the application it is mounted in; both parses of the prefixed path are given that list
+//@   atcall parseRoute: [C02 C04] own-custom-constraints-first-then-the-parents: len(customConstraints) == len(old(route.customConstraints)) + len(app.customConstraints) &&
+//@ ..    forall(i, 0, len(old(route.customConstraints)), customConstraints[i] == old(route.customConstraints)[i]) &&
+//@ ..    forall(i, 0, len(app.customConstraints), customConstraints[len(old(route.customConstraints)) + i] == app.customConstraints[i])
+//@   ensures [C02 C04] remembers-its-custom-constraints: len(route.customConstraints) == old(len(route.customConstraints)) + len(app.customConstraints) &&
+//@ ..    forall(i, 0, old(len(route.customConstraints)), route.customConstraints[i] == old(route.customConstraints[i])) &&
+//@ ..    forall(i, 0, len(app.customConstraints), route.customConstraints[old(len(route.customConstraints)) + i] == app.customConstraints[i])
 //@   ensures params-are-those-of-the-prefixed-path: route.Params == paramsOf(route.Path, epoch)
 
 // ---- 1. prefix arithmetic: registering through a group is registering the spelled-out path -----------------
